@@ -115,8 +115,10 @@ def _kind(obj: Any) -> str:
     return {"Fock": "F", "Polarization": "P", "CustomState": "C"}.get(n, "?")
 
 
-def _state_fields(state: Any) -> Dict[str, Any]:
+def _state_fields(state: Any, lv: str = "") -> Dict[str, Any]:
     rp, shape = project.repr_kind(state)
+    if shape == (1, 1) and lv == "M":
+        rp = "mat"          # a 1 x 1 array is both a column vector and a matrix: believe the tag
     if rp == "int":
         n = int(state)
     elif rp == "enum":
@@ -189,7 +191,7 @@ def projection(reg: Registry = REG) -> Dict[str, Any]:
         rec = {"id": i, "k": _kind(s), "env": env_of.get(i, 0), "cc": cc, "ix": _ix(getattr(s, "index", None)),
                "lv": project.level_tag(getattr(s, "expansion_level", None)), "dim": int(getattr(s, "dimensions", -1)),
                "ms": bool(getattr(s, "measured", False))}
-        rec.update(_state_fields(getattr(s, "state", None)))
+        rec.update(_state_fields(getattr(s, "state", None), rec["lv"]))
         subs.append(rec)
     envs = []
     for e, env in reg.envs.items():
@@ -203,7 +205,7 @@ def projection(reg: Registry = REG) -> Dict[str, Any]:
         rec = {"id": e, "f": f[1] if f else 0, "p": p[1] if p else 0,
                "lv": project.level_tag(getattr(env, "_expansion_level", None)) if getattr(env, "state", None) is not None else "-",
                "ms": bool(getattr(env, "measured", False)), "cc": cc}
-        rec.update(_state_fields(getattr(env, "state", None)))
+        rec.update(_state_fields(getattr(env, "state", None), rec["lv"]))
         envs.append(rec)
     conts = []
     hnd = []
@@ -222,7 +224,7 @@ def projection(reg: Registry = REG) -> Dict[str, Any]:
         for ps in c.states:
             rec = {"pid": reg.ps_id(ps), "lv": project.level_tag(getattr(ps, "expansion_level", None)),
                    "mem": [(reg.id_of(o) or 0) for o in ps.state_objs]}
-            rec.update(_state_fields(getattr(ps, "state", None)))
+            rec.update(_state_fields(getattr(ps, "state", None), rec["lv"]))
             pss.append(rec)
         conts.append({"id": cid, "hs": by_cont.get(cid, []),
                       "envs": [(reg.any_id(e) or ("e", 0))[1] for e in c.envelopes],
